@@ -282,6 +282,16 @@ def one_case(ctx, alg, cfg, name, op, force_keysets=None):
             ctx.note_raised(g1, 'kwcall')
             if not isinstance(g1, ZeroDivisionError):
                 ctx.violation('calling the symbolic result raises', cid + ['kw'], error=repr(g1)[:200], free_symbols=fnames, **wit)
+        # keywords bind BY NAME: a keyword that is not one of the free symbols cannot be bound to anything
+        if rng.random() < 0.3:
+            wrong = dict((n, cv(point[n])) for n in fnames)
+            victim = rng.choice(fnames)
+            wrong['k_not_a_symbol' if rng.random() < 0.5 else victim + '9'] = wrong.pop(victim)
+            stw, gw = ctx.guarded(to, lambda: rs(**wrong))
+            ctx.count('keyword_calls_with_a_foreign_name')
+            if stw == 'ok':
+                ctx.violation('a keyword that is not a free symbol of the multivector was bound to one (keywords bind by position)', cid + ['kw-foreign'],
+                              free_symbols=fnames, keywords=sorted(wrong), returned=show_elem(mv_dict(gw)) if hasattr(gw, 'keys') else repr(gw)[:80], **wit)
         st2, g2 = ctx.guarded(to, lambda: rs(*[cv(point[n]) for n in fnames]))
         if st2 == 'ok':
             ctx.count('positional_calls_compared')
